@@ -46,6 +46,16 @@ CHECKS = {
               'Arithmetic contract asserted on every record produced; '
               'contract evaluations counted (zero = inconclusive).',
               'DESIGN.md section 2 C03', _BASE_NOTE),
+    'C05': _e('exploration',
+              'reference-model monitor on the real AnnDataRowIterator '
+              '(iteration, get_chunk, get_batch, __getitem__): files written '
+              'by anndata from in-memory matrices with unique ids as values, '
+              're-chunked with h5py; exhaustive 0/1 patterns up to 3x3 + '
+              'random matrices; differential monitor: mapping results and '
+              'statistics files bitwise equal across dense / CSR / CSC',
+              'Every yielded chunk and requested row list compared exactly '
+              'with the matrix held in memory.',
+              'DESIGN.md section 2 C05', _BASE_NOTE),
     'C06': _e('exploration',
               'metamorphic differential monitor: base run vs runs on '
               'permuted / sub-sampled / embedded / duplicated cells and '
